@@ -33,11 +33,15 @@ type elem struct {
 	Out  string `json:"out"`  // succ | insufficient | command | notfound | other
 	Bad  int    `json:"bad"`  // which malformed body
 	Opt  int    `json:"opt"`  // optional fields of a well-formed body: 0 spelled with their default, 1 set, 2 absent
+	Bare bool   `json:"bare"` // CREATE_TRANSACTION: valid JSON of the right type without postings and without script
 }
 
 type input struct {
 	Cont bool   `json:"continueOnFailure"`
-	Els  []elem `json:"elements"`
+	// ContSp: how the HTTP request spells the parameter ("-" = absent); consistent with Cont (true only for a
+	// lower-cased "1" or "true")
+	ContSp string `json:"continueOnFailure_spelling,omitempty"`
+	Els    []elem `json:"elements"`
 }
 
 var actions = []string{v2.ActionCreateTransaction, v2.ActionAddMetadata, v2.ActionRevertTransaction, v2.ActionDeleteMetadata}
@@ -100,6 +104,12 @@ func dataFor(i int, e elem) string {
 	}
 	switch coqAct(e.Act) {
 	case "ACreate":
+		if e.Bare {
+			if e.Opt%3 == 1 {
+				return fmt.Sprintf(`{"reference":"e%d","metadata":{"m":"%d"}}`, i, i)
+			}
+			return fmt.Sprintf(`{"reference":"e%d"}`, i)
+		}
 		switch e.Opt % 3 {
 		case 1:
 			return fmt.Sprintf(`{"postings":[{"source":"world","destination":"bank","amount":100,"asset":"USD"}],"reference":"e%d","metadata":{"m":"%d"}}`, i, i)
@@ -173,6 +183,9 @@ func ownRequest(c fakeapi.WriteCall, i int, e elem) string {
 	case "CREATE_TRANSACTION":
 		if c.Script == nil {
 			return ""
+		}
+		if e.Bare != (c.Script.Plain == "") {
+			return fmt.Sprintf("create:script=%q", c.Script.Plain)
 		}
 		if e.Opt%3 == 1 {
 			if len(c.Script.Metadata) != 1 || c.Script.Metadata["m"] != fmt.Sprint(i) {
@@ -315,7 +328,11 @@ func runHTTP(in input) (ob observation, raw string) {
 	l := backendFor(in)
 	router := v2.NewRouter(&fakeapi.Backend{L: l}, &health.HealthController{}, metrics.NewNoOpRegistry(), auth.NewNoAuth())
 	url := "/ledger0/_bulk"
-	if in.Cont {
+	switch {
+	case in.ContSp == "-":
+	case in.ContSp != "":
+		url += "?continueOnFailure=" + in.ContSp
+	case in.Cont:
 		url += "?continueOnFailure=true"
 	}
 	req := httptest.NewRequest(http.MethodPost, url, bytes.NewBufferString(body(in)))
@@ -529,6 +546,7 @@ func genElem(g *vx.Rng) elem {
 	if g.Chance(1, 2) {
 		e.IK = fmt.Sprintf("k%d", 1+g.Intn(3))
 	}
+	e.Bare = e.Act == v2.ActionCreateTransaction && g.Chance(1, 4)
 	return e
 }
 
@@ -588,6 +606,17 @@ func main() {
 	for k := 0; k < N; k++ {
 		n := 1 + g.Intn(9)
 		in := input{Cont: g.Bool()}
+		if in.Cont {
+			in.ContSp = []string{"", "true", "TRUE", "True", "1"}[g.Intn(5)]
+		} else {
+			in.ContSp = []string{"-", "-", "false", "FALSE", "False", "0", "no", "off", "=", "2", "yes"}[g.Intn(11)]
+			if in.ContSp == "=" {
+				in.ContSp = "%20" // a blank value
+			}
+		}
+		if k%40 == 39 && !r.Thorough() || k%400 == 399 {
+			n = 60 + g.Intn(200) // a long bulk
+		}
 		for i := 0; i < n; i++ {
 			in.Els = append(in.Els, genElem(g))
 		}
